@@ -318,7 +318,7 @@ def call_lib(I, name, args, kwargs, node):
         keyf, seq = a[0], a[1]
         out = DictS()
         for item in seq_elts(I, seq, node):
-            k = I.call(keyf, [item], {}, node) if isinstance(keyf, Fn) else I.getitem(item, keyf, node)
+            k = I.call(keyf, [item], {}, node) if I.is_callable(keyf) else I.getitem(item, keyf, node)
             if isinstance(k, Const):
                 out.items.setdefault(k.v, ListLit([])).elts.append(item)
             else:
@@ -812,7 +812,7 @@ def builtin(I, name, a, kwargs, node, _no_override=False):
                 return Fn("lib", name=f"builtins.{tn}")
         return Top("type()")
     if name == "callable":
-        return Const(isinstance(a[0], Fn))
+        return Const(I.is_callable(a[0]))
     if name == "slice" and a and all(isinstance(x, Const) for x in a) and not kwargs:
         return Const(slice(*[x.v for x in a]))
     if name == "range":
